@@ -963,6 +963,14 @@ func (f *frame) execRecv(x *ssa.UnOp) {
 	if f.chanModel() {
 		f.chanAdd(f.asTerm(f.get(x.X)), f.guard, -1)
 	}
+	if g := c.eng.ghosts["rcvd"]; g != nil {
+		// rcvd(ch): how many receives from ch have completed (values or the zero value of a closed
+		// channel) — a counter only this rule writes, so it is never negative
+		ch := f.asTerm(f.get(x.X))
+		arr := c.heapGet(f.heap, "G rcvd", arraySort(SInt, SInt))
+		c.assume(implies(f.guard, ge(sel(arr, ch), tZero)))
+		c.heapSet(f.heap, "G rcvd", ite(f.guard, store(arr, ch, add(sel(arr, ch), tOne)), arr))
+	}
 	if x.CommaOk {
 		f.vals[x] = Tuple{v, c.fresh(f.vname(x)+".ok", SBool)}
 	} else {
